@@ -639,7 +639,7 @@ func c13History(c *core.Ctx, curve elliptic.Curve, r *core.Rand, tag string) {
 		r, s   *big.Int
 	}
 	var pool []item
-	digest := r.Bytes(32)
+	digest := r.Bytes(r.Of(32, 48, 66, 70, 128, 20)) // shorter than, as long as, and longer than the order
 	for ki := 0; ki < 2; ki++ {
 		k := c13MkKey(r, curve)
 		vr, vs, err := stdecdsa.Sign(r, k.std, digest)
